@@ -775,6 +775,74 @@ class Checker:
 					f'cosign {hx(secret)} {hx(transaction_hash.bytes)} {1 if detached else 0}',
 					f'cosignature #{index + 1} ({kind}) of one key pair / account object != reference signature of the transaction hash')
 
+	@staticmethod
+	def apply_edit(transaction, field, value):
+		"""Sets `field` of the transaction object in place to `value` (int or bytes), keeping the field's own type."""
+		current = getattr(transaction, field)
+		if isinstance(value, bytes) and not isinstance(current, (bytes, bytearray)) and hasattr(current, 'message'):
+			current.message = value  # NEM: the Message object inside the transaction is edited in place
+		elif isinstance(current, (bytes, bytearray, int)) and not hasattr(current, 'value'):
+			setattr(transaction, field, value)
+		else:
+			setattr(transaction, field, type(current)(value))
+
+	def reference_hash(self, network, seed, buffer):
+		if 'nem' == network:
+			import sha3
+			return sha3.keccak_256(self.layout.nem_payload(buffer)).digest()
+		signature = buffer[self.layout.signature[0]:self.layout.signature[0] + self.layout.signature[1]]
+		signer = buffer[self.layout.signer[0]:self.layout.signer[0] + self.layout.signer[1]]
+		start, end = self.layout.symbol_covered(buffer)
+		return hashlib.sha3_256(signature + signer + seed + buffer[start:end]).digest()
+
+	def mutation_history(self, network, seed, secret, buffer, edits):
+		"""One transaction OBJECT: payload / sign / verify / hash (/ cosign), then each of `edits` = [(field, value)] is applied in
+		place and everything is asked again - every answer must be the reference for the object's CURRENT serialization, and a
+		signature made before an edit of a covered field must stop verifying (one made before an uncovered edit must not)."""
+		facade = self.impl.facade(network, seed)
+		key_pair = self.impl.key_pair(network, secret)
+		transaction = facade.transaction_factory.deserialize(buffer)
+		applied = []
+		earlier = []  # (payload, signature) of the earlier stages
+		for stage in range(len(edits) + 1):
+			if stage:
+				field, value = edits[stage - 1]
+				self.apply_edit(transaction, field, value)
+				applied.append(f'{field}={value.hex() if isinstance(value, bytes) else value}')
+			current = transaction.serialize()
+			args = {'network': network, 'seed': seed, 'secret': secret, 'transaction': buffer, 'edits': ';'.join(applied), 'stage': stage}
+			payload = self.layout.nem_payload(current) if 'nem' == network else self.layout.symbol_payload(seed, current)
+			wrap = '' if 'nem' == network else 'ok '
+			note = f'after in-place edits [{"; ".join(applied)}]' if applied else 'before any edit'
+			answer = facade.extract_signing_payload(transaction)
+			self.add('mutate', dict(args, check='payload'), wrap + hx(answer), wrap + hx(payload),
+				f'payload_nem {hx(current)}' if 'nem' == network else f'payload_symbol {hx(seed)} {hx(current)}',
+				f'signing payload of one transaction object {note} is not that of its current serialization')
+			signature = self._signed(facade.sign_transaction, key_pair, transaction)
+			self.add('mutate', dict(args, check='sign'), signature, 'ok ' + hx(ref_sign(network, secret, payload)),
+				f'sign_tx_nem {hx(secret)} {hx(current)}' if 'nem' == network else f'sign_tx_symbol {hx(seed)} {hx(secret)} {hx(current)}',
+				f'signature of one transaction object {note} != reference signature of its current payload')
+			reference = ref_sign(network, secret, payload)
+			for index, (old_payload, old_signature) in enumerate(earlier + [(payload, reference)]):
+				required = 'accept' if old_payload == payload else 'reject'
+				verdict = self.impl.verify_transaction(network, seed, transaction, old_signature)
+				self.add('mutate', dict(args, check=f'verify-signature-of-stage-{index}'), wrap + verdict, wrap + required,
+					f'verify_tx_nem {hx(current)} {hx(old_signature)}' if 'nem' == network else f'verify_tx_symbol {hx(seed)} {hx(current)} {hx(old_signature)}',
+					f'verify_transaction {note}: the signature made at stage {index} must be {required}ed for the current content')
+			earlier.append((payload, reference))
+			hashed = facade.hash_transaction(transaction).bytes
+			if hashed != self.reference_hash(network, seed, current):
+				self.ctx.fail('property', f'hash_transaction of one transaction object {note} is not the hash of its current serialization', {
+					'op': 'mutate', 'args': dict(args, check='hash'), 'implementation': hx(hashed), 'required': hx(self.reference_hash(network, seed, current))})
+			if 'nem' != network:
+				detached = 1 == stage % 2
+				cosignature = facade.cosign_transaction(key_pair, transaction, detached).serialize()
+				expected_hash = self.reference_hash(network, seed, current)
+				required = bytes(8) + ref_public_key('symbol', secret) + ref_sign('symbol', secret, expected_hash) + (expected_hash if detached else b'')
+				self.add('mutate', dict(args, check='cosign'), 'ok ' + hx(cosignature), 'ok ' + hx(required),
+					f'cosign {hx(secret)} {hx(expected_hash)} {1 if detached else 0}',
+					f'cosignature of one transaction object {note} is not over the hash of its current serialization')
+
 	def verify_history(self, network, public_key, pairs, expected):
 		"""One Verifier object judges the (message, signature) pairs in order; a refusal in between must not change later verdicts."""
 		import nacl.exceptions
@@ -1036,6 +1104,33 @@ def _history_round(checker, rng, network):
 		ctx.count(f'history:{network}:one-account-many-transactions')
 	checker.settle()
 
+	# one transaction object edited in place between two uses
+	if transactions:
+		for buffer, made in (transactions[0], transactions[-1]):
+			fresh = facade.transaction_factory.deserialize(buffer)
+			edits = []
+			for field in rng.sample(['deadline', 'fee', 'timestamp', 'amount', 'message', 'transactions_hash'], 6):
+				if not hasattr(fresh, field):
+					continue
+				current = getattr(fresh, field)
+				if field in ('message',):
+					value = rng.bytes_(rng.choice([1, 7, 40]))
+				elif 'transactions_hash' == field:
+					value = rng.bytes_(32)
+				else:
+					width = 32 if 'nem' == network and field in ('deadline', 'timestamp') else 64
+					value = (getattr(current, 'value', current) + 1 + rng.randrange(1000)) % (1 << width)
+				edits.append((field, value))
+				if len(edits) >= 3:
+					break
+			# control: the signature field is not covered, an old signature must survive this edit
+			edits.insert(rng.randrange(len(edits) + 1), ('signature', rng.bytes_(64)))
+			checker.mutation_history(network, seed, secret, buffer, edits)
+			ctx.count(f'history:{network}:one-transaction-edited-in-place')
+			for field, _ in edits:
+				ctx.count(f'history:{network}:edited-field:{field}')
+		checker.settle()
+
 	# one Verifier object
 	public_key = ref_public_key(network, secret)
 	good_first, good_second = ref_sign(network, secret, first), ref_sign(network, secret, second)
@@ -1248,6 +1343,12 @@ def replay(ctx, payload):
 		factory = impl.facade(network, seed).transaction_factory
 		steps = [(kind, buffer, factory.deserialize(buffer)) for kind, buffer in zip(args['kinds'].split(','), args['transactions'])]
 		checker.transaction_history(network, seed, args['secret'], steps)
+	elif 'mutate' == name:
+		edits = []
+		for part in [item for item in (args.get('edits') or '').split(';') if item]:
+			field, _, text = part.partition('=')
+			edits.append((field, int(text) if field in ('deadline', 'fee', 'timestamp', 'amount') else bytes.fromhex(text)))
+		checker.mutation_history(args['network'], args.get('seed'), args['secret'], args['transaction'], edits)
 	elif 'verify_history' == name:
 		checker.verify_history(args['network'], args['public_key'], [tuple(pair) for pair in args['pairs']], args['expected'].split(','))
 	else:
